@@ -139,9 +139,17 @@ def run_pipe(case):
         item.apply = apply
     for item in pl.items:
         wrap(item)
-    # the state before: a pipeline without items resets the bookkeeping exactly as apply() does
-    pl.state = {}
-    out["s0"] = snapshot(rule, pl)
+    # rules converted earlier with the same pipeline object: apply() must start every rule afresh
+    for pre in case.get("pre", []):
+        try:
+            pl.apply(SigmaRule.from_dict(rule_dict(pre)))
+        except Exception:
+            pass
+    del snaps[:]
+    # the state before: the rule as parsed; apply() resets the pipeline's bookkeeping
+    s0 = snapshot(rule, pl)
+    s0["state"], s0["ftrack"] = [], []
+    out["s0"] = s0
     try:
         pl.apply(rule)
     except Exception as e:
